@@ -107,6 +107,17 @@ if mode == "rate":
     for key in keys:
         if got[key] != exp[key]:
             bad.append(("Reaction.rate", key, got[key], exp[key]))
+    import numpy as np
+    arrv = {kk: np.array([vv], dtype=object) for kk, vv in conc.items()}
+    ga1 = rxns[0].rate(arrv, substance_keys=keys); ga2 = rxns[0].rate(arrv, substance_keys=keys)
+    for key in keys:
+        f1 = ga1[key][0] if hasattr(ga1[key], "__len__") else ga1[key]
+        f2 = ga2[key][0] if hasattr(ga2[key], "__len__") else ga2[key]
+        if f1 != exp[key] or f2 != exp[key]:
+            bad.append(("Reaction.rate with array-valued concentrations (1st, 2nd evaluation)", key, (f1, f2), exp[key]))
+    for kk in conc:
+        if arrv[kk][0] != conc[kk]:
+            bad.append(("caller's variables were modified", kk, arrv[kk][0], conc[kk]))
     rxns[0].param = ks[0] + 1  # the object is mutable: a later evaluation uses the constant it has then
     got = rxns[0].rate(conc, substance_keys=keys)
     exp = oracle_rate(rxs[0], ks[0] + 1, conc, keys)
@@ -180,13 +191,20 @@ def ob_single(pattern, keys, lo, hi, checks, seed=0, twin=False):
         v2 = dict(conc)
         v2["kname"] = k
         got2 = rxn2.rate(v2, substance_keys=ask)
+        # history with mutable concentration objects (numpy arrays): evaluating twice must give the same rates and must not
+        # write into the caller's variables
+        import numpy as np
+        arrv = {kk: np.array([vv], dtype=object) for kk, vv in conc.items()}
+        ga1 = rxn.rate(arrv, substance_keys=ask)
+        ga2 = rxn.rate(arrv, substance_keys=ask)
+        arr_state = (ga1, ga2, arrv)
         rxn.param = k + 1
         got3 = rxn.rate(conc, substance_keys=ask)
         exp3 = oracle_rate(rx, k + 1, conc, ask)
         exp = oracle_rate(rx, k, conc, ask)
         if twin:
             exp = oracle_rate((dict(rx[0], **{kk: rx[0].get(kk, 0) + v for kk, v in rx[2].items()}), rx[1], rx[2], rx[3]), k, conc, ask)
-        return got, got2, exp, got3, exp3
+        return got, got2, exp, got3, exp3, arr_state
 
     def goal(p):
         if p.kind == "exc":
@@ -198,11 +216,15 @@ def ob_single(pattern, keys, lo, hi, checks, seed=0, twin=False):
                 return all_eq([(n, 0) for n in nets])
             holder["exc"] = repr(e)
             return False
-        got, got2, exp, got3, exp3 = p.value
+        got, got2, exp, got3, exp3, (ga1, ga2, arrv) = p.value
         if set(got) != set(ask) or set(got2) != set(ask) or set(got3) != set(ask):
             return False
+
+        def first(v):
+            return v[0] if hasattr(v, "__len__") else v
         return z3.And(all_eq([(got[kk], exp[kk]) for kk in ask]), all_eq([(got2[kk], exp[kk]) for kk in ask]),
-                      all_eq([(got3[kk], exp3[kk]) for kk in ask]))
+                      all_eq([(got3[kk], exp3[kk]) for kk in ask]), all_eq([(first(ga1[kk]), exp[kk]) for kk in ask]),
+                      all_eq([(first(ga2[kk]), exp[kk]) for kk in ask]), all_eq([(arrv[kk][0], conc[kk]) for kk in conc]))
 
     o = explore_and_prove(fn, assum, goal, max_paths=20000, deadline_s=DEADLINE)
     return o, (rx, k, conc, ask, holder)
